@@ -541,6 +541,139 @@ def connect_cases(tier):
     return out
 
 
+# -- part 'defaults' ----------------------------------------------------------------
+# "For any combination of rdwr, llcp and card options": an option dictionary
+# that is empty (every documented default applies) must make connect() behave
+# like the dictionary that spells one of those defaults out.
+def defaults_run(kind, envname, term_at, form):
+    import nfc.clf
+    import nfc.clf.device
+    import nfc.dep
+    log = []
+    env = dict(found={})
+    if envname == 'tag':
+        env = dict(found={'106A': 'found'}, tag=True, presence=2)
+    if envname == 'reader':
+        env = dict(found={}, reader=True, reader_cmds=2)
+    dev = Dev(env, log)
+    p = simpeer.Peer()
+    brk = simpeer.Break('disc', 3)
+    Ini, Tgt = simpeer.make_mac_classes()
+    Ini.peer = Tgt.peer = p
+    Ini.brk = Tgt.brk = brk
+    if envname != 'peer':
+        brk.happened = True
+    calls = dict(term=0)
+
+    def terminate():
+        calls['term'] += 1
+        return calls['term'] > term_at or (envname == 'peer'
+                                           and brk.happened)
+    if form == 'empty':
+        opts = {}
+    else:
+        # one documented default spelled out
+        name = {'rdwr': 'on-connect', 'llcp': 'on-connect',
+                'card': 'on-release'}[kind]
+        opts = {name: lambda arg: True}
+    if kind == 'rdwr' and env.get('tag'):
+        # the tag leaves after two presence checks (also with the default
+        # on-connect): counted in the driver stand-in
+        dev.count_presence_in_driver = True
+    real_connect = nfc.clf.device.connect
+    real_dep = nfc.dep.Initiator, nfc.dep.Target
+    nfc.clf.device.connect = lambda path: dev
+    nfc.dep.Initiator, nfc.dep.Target = Ini, Tgt
+    s = sched.Sched(sched.Chooser(), max_steps=200000, timer_deviations=False)
+    s.quiet = True
+    out = {}
+
+    def main():
+        clf = nfc.clf.ContactlessFrontend('script')
+        del log[:]
+        try:
+            out['ret'] = ('ret', clf.connect(terminate=terminate,
+                                             **{kind: opts}))
+        except sched.Abort:
+            raise
+        except BaseException as e:
+            out['ret'] = ('exc', e)
+    try:
+        s.spawn(main, 'main')
+        s.run()
+    finally:
+        nfc.clf.device.connect = real_connect
+        nfc.dep.Initiator, nfc.dep.Target = real_dep
+    if 'ret' not in out:
+        return ('stuck', s.verdict), []
+    r = out['ret']
+    cls = (r[0], contract.ret_class(r[1]) if r[0] == 'ret'
+           else type(r[1]).__name__)
+    return cls, [e[1] for e in log if e[0] == 'dev'], calls['term']
+
+
+def defaults_case(case):
+    kind, envname, term_at = case
+    a = defaults_run(kind, envname, term_at, 'empty')
+    b = defaults_run(kind, envname, term_at, 'spelled')
+    if a == b:
+        return [], ('defaults', kind, envname, a[0])
+    return [('defaults|%s={}|differs-from-spelled-out-default' % kind,
+             dict(kind=kind, env=envname, terminate_at=term_at,
+                  with_empty_dict=repr(a), with_default_spelled_out=repr(b)))
+            ], ('defaults', kind, envname, 'differs')
+
+
+def defaults_cases(tier):
+    return [(k, e, t) for k in ('rdwr', 'llcp', 'card')
+            for e in ('none', 'tag', 'peer', 'reader') for t in range(0, 6)]
+
+
+# -- part 'race' --------------------------------------------------------------------
+# "exchange() never uses a target from an earlier sense or listen" - also
+# when another thread's sense()/listen() completes while exchange() waits for
+# the frontend lock.  The two-thread harness and driver proxy of props/c15.py;
+# every schedule with <= 2 preemptions.
+RACE_OTHERS = ('sense1', 'sense2', 'listen', 'listen_a', 'listen_b', 'close')
+
+
+def race_cfgs():
+    out = []
+    for x in RACE_OTHERS:
+        out.append(dict(eps=['exchange', x], target='tag'))
+        out.append(dict(eps=[x, 'exchange'], target='tag'))
+    return out
+
+
+def race_work(cfg):
+    from props import c15
+    from mc import explore
+    run = Run(PROP)
+    stats = explore.Stats()
+
+    def visit(ch, res):
+        s, rec = res
+        key = ('race', repr(cfg), tuple(ch.choices))
+        run.outcome(('race', tuple(sorted((i, r[0]) for i, r in
+                                          rec['results'].items())),
+                     bool(rec.get('stale'))))
+        if rec.get('stale'):
+            other = [e for e in cfg['eps'] if e != 'exchange'][0]
+            run.fail('race|exchange|stale-target|%s|other-thread:%s' % (
+                rec['stale'][0], other),
+                dict(kind='race', cfg=cfg, choices=ch.choices,
+                     driver_calls_with_stale_target=rec['stale']), key,
+                deviations=ch.cost)
+        else:
+            run.ok(key, nontrivial=rec['calls'] > 0)
+    explore.explore(lambda ch: c15.execute(cfg, ch), 2, visit,
+                    max_execs=20000, stats=stats)
+    run.count('race', stats.executions)
+    run.count('race_capped', 1 if stats.capped else 0)
+    run.sample(dict(kind='race', cfg=cfg, executions=stats.executions))
+    return run.export()
+
+
 FAULT_KINDS = ('EIO', 'ENODEV', 'KeyboardInterrupt')
 
 
@@ -577,6 +710,9 @@ def work(unit):
         elif kind == 'listen':
             bad, outcome = listen_case(case)
             cls = 'listen|%s' % case[0]
+        elif kind == 'defaults':
+            bad, outcome = defaults_case(case)
+            cls = 'connect|%s|%s' % (case[0], case[1])
         elif kind == 'faults':
             bad, outcome = connect_case(case)
             cls = 'connect|%s|%s' % ('+'.join(case['opts']), case['env'])
@@ -611,11 +747,16 @@ def main(tier='quick', seed=0, part=None):
     if part in (None, 'connect'):
         units += [('connect', c) for c in par.chunks(
             par.shuffled(connect_cases(tier), seed), 128)]
+    if part in (None, 'defaults'):
+        units += [('defaults', defaults_cases(tier))]
     if part in (None, 'faults'):
         units += [('faults', c) for c in par.chunks(
             par.shuffled(fault_cases(tier), seed), 128)]
     for res in par.pmap(work, units):
         run.merge(res)
+    if part in (None, 'race'):
+        for res in par.pmap(race_work, race_cfgs()):
+            run.merge(res)
     n = run.evaluations
     run.rule = (
         "sense: every target list of length 1..3 over %d target kinds x "
@@ -626,7 +767,12 @@ def main(tier='quick', seed=0, part=None):
         "exchange(); connect: option subsets x "
         "environment {none, tag, peer, reader} x callback return values with "
         "at most 2 non-default ones x terminate() turning true at its t-th "
-        "call; faults: for default callbacks (and on-connect false) the n-th "
+        "call; race: exchange() in one thread against sense()/listen()/close() "
+        "in another, every schedule with <= 2 preemptions - the driver is "
+        "never handed a target other than the frontend's current one; "
+        "defaults: an empty option dictionary behaves like one that "
+        "spells a documented default out (option kind x environment x "
+        "terminate time); faults: for default callbacks (and on-connect false) the n-th "
         "driver call of the history raises IOError(EIO/ENODEV) or "
         "KeyboardInterrupt, every n and kind - connect() must return False; "
         "each history judged by the reference automaton "
@@ -644,8 +790,14 @@ def main(tier='quick', seed=0, part=None):
 def replay(doc):
     import ast
     d = doc['detail']
+    if d.get('kind') == 'race':
+        from props import c15
+        s, rec = c15.execute(d['cfg'], sched.Chooser(d['choices']))
+        print('replay:', rec.get('stale'))
+        return 1 if rec.get('stale') else 0
     case = ast.literal_eval(d['case'])
-    bad, outcome = {'sense': sense_case, 'listen': listen_case}.get(
+    bad, outcome = {'sense': sense_case, 'listen': listen_case,
+                    'defaults': defaults_case}.get(
         d['kind'], connect_case)(case)
     print('replay:', [b[0] for b in bad], outcome)
     return 1 if bad else 0
